@@ -70,6 +70,7 @@ func (l *Life) ReplayWalks(walks string, cat *Catalog) int {
 		}
 		l.Reset(lcms[n%len(lcms)], "walk")
 		n++
+	acts:
 		for _, a := range w.Acts {
 			switch a.Op {
 			case "build":
@@ -81,7 +82,7 @@ func (l *Life) ReplayWalks(walks string, cat *Catalog) int {
 			case "persistopen":
 				h := l.segs[a.Sid]
 				if h == nil {
-					fatal2("walk %s refers to unknown segment %d", string(line), a.Sid)
+					break acts // an earlier step failed (logged); the rest of the walk cannot be executed
 				}
 				k := l.Persist(h)
 				if _, ok := l.files[k]; ok {
@@ -93,7 +94,7 @@ func (l *Life) ReplayWalks(walks string, cat *Catalog) int {
 				for i, s := range a.Ins {
 					h := l.segs[s]
 					if h == nil {
-						fatal2("walk %s refers to unknown segment %d", string(line), s)
+						break acts
 					}
 					ins = append(ins, h)
 					d := Drop{Nil: a.Drops[i].Nil, Ds: Ints(a.Drops[i].Ds)}
